@@ -141,9 +141,9 @@ template <int DIM, int ORDER> struct Cfg {
 };
 
 template <int DIM, int ORDER> static void explore_order(Ctx &c, long &id) {
-  static const int segs[7] = {1, 2, 3, 31, 32, 33, 40};
+  static const int segs[9] = {1, 2, 3, 31, 32, 33, 40, 64, 100};
   const int ncmax = ORDER == Eigen::Dynamic ? 12 : ORDER;
-  for (int nc = 1; nc <= ncmax; ++nc) for (int si = 0; si < 7; ++si) for (int v = 0; v < 2; ++v) {
+  for (int nc = 1; nc <= ncmax; ++nc) for (int si = 0; si < (c.args.thorough() ? 9 : 7); ++si) for (int v = 0; v < 2; ++v) {
     int n = segs[si]; if (v == 1 && n < 3) continue;
     long my = id++;
     if (!c.mine(my)) continue;
